@@ -743,6 +743,17 @@ def fixed_char_programs(rng, n):
                 return f"({term(max(0, d))} {rng.choice(CMP)} {term(max(0, d))})"
 
             args = [["a", t]] + ([["b", t]] if two else [])
+            if rng.random() < 0.15 and i >= 2:
+                # int() / float() conversions between Qfixed[i,f] and Qint[i]
+                fi = {2: 2, 3: 3, 4: 4}[i]
+                if rng.random() < 0.5:
+                    src = f"def f(a: {ann}, n: Qint[{i}]) -> Qint[{i}]:\n    return {rng.choice(['int(a)', 'int(a) + n', 'int(a + a) ^ n', '(int(a) if n[0] else n)'])}\n"
+                    out.append({"src": src, "args": [["a", t], ["n", f"Qint{i}"]], "ret": f"Qint{i}", "feat": ["int_of_fixed"]})
+                else:
+                    tt = f"Qfixed{i}_{fi}"
+                    src = f"def f(a: Qfixed[{i}, {fi}], n: Qint[{i}]) -> Qfixed[{i}, {fi}]:\n    return {rng.choice(['float(n)', 'float(n) + a', 'a - float(n)', '(float(n) if a > float(n) else a)'])}\n"
+                    out.append({"src": src, "args": [["a", tt], ["n", f"Qint{i}"]], "ret": tt, "feat": ["float_of_int"]})
+                continue
             extra = rng.random() < 0.3
             if extra:
                 args.append(["c", "bool"])
